@@ -410,6 +410,9 @@ def parts(tier):
         Part('transport', make_transport_harness(2, 1), bounds={'events_in_flight': 2, 'cuts_per_transfer': 1, 'cut_zones': 'around every delimiter (z3 Int), at the start (z3 Int), coarse positions',
                                                                                  'args': 'empty / nested JSON / 5000-char string / unicode+float', 'firewalls': 'allow all or deny one name (send, receive)'},
              encoded=ENC, budget_s=85 if q else 2400),
+    ] + ([] if q else [
+        Part('transport-two-cuts', make_transport_harness(1, 2), bounds={'events_in_flight': 1, 'cuts_per_transfer': 2}, encoded=ENC, budget_s=1200),
+    ]) + [
         Part('hostile', make_hostile_harness(), bounds={'meta_keys': 'every attribute name manager.py/events.py/values.py read from an event (AST of the current source)', 'values': [repr(v) for v in HOSTILE_VALUES],
                                                         'json_mutations': 14}, encoded=[NP.Protocol.add_buffer, NU.load_event, NU.load_value], budget_s=85 if q else 900),
         Part('bidirectional', make_bidirectional_harness(), bounds={'directions': 'both peers send one event at the same time', 'names': ['ping', 'echo']}, encoded=[NP.Protocol.send, NP.Protocol.add_buffer], budget_s=30),
